@@ -2,6 +2,7 @@ package explore
 
 import (
 	"fmt"
+	"regexp"
 	"sort"
 	"strings"
 	"time"
@@ -459,7 +460,7 @@ func ExploreScenario(c *Ctx, sc *Scenario, base *Base, slice time.Time, check fu
 		case x.Divergence != "":
 			c.HarnessError("scenario %s: replay divergence: %s", sc.Describe(), x.Divergence)
 		case x.Panic != "":
-			return "panic", "panic in thread " + x.PanicThread + ": " + firstLines(x.Panic, 12)
+			return "panic", "panic in thread " + x.PanicThread + ": " + panicSummary(x.Panic)
 		case x.Deadlock != "":
 			return "deadlock", "deadlock: " + x.Deadlock
 		case x.Horizon:
@@ -569,6 +570,30 @@ func preemptions(x *vsync.Exec) int {
 		}
 	}
 	return n
+}
+
+var pogrebFrame = regexp.MustCompile(`github\.com/akrylysov/pogreb(?:/fs)?\.[A-Za-z0-9_.()*]+`)
+
+// panicSummary renders a panic deterministically: its value and the pogreb functions on the stack
+// (no goroutine numbers, addresses or argument values, which differ between runs of one schedule).
+func panicSummary(p string) string {
+	lines := strings.SplitN(p, "\n", 2)
+	val := lines[0]
+	var frames []string
+	if len(lines) > 1 {
+		for _, f := range pogrebFrame.FindAllString(lines[1], -1) {
+			if strings.Contains(f, "zzverif") {
+				continue
+			}
+			if len(frames) == 0 || frames[len(frames)-1] != f {
+				frames = append(frames, f)
+			}
+			if len(frames) == 8 {
+				break
+			}
+		}
+	}
+	return val + " | stack: " + strings.Join(frames, " < ")
 }
 
 func firstLines(s string, n int) string {
